@@ -120,6 +120,8 @@ def _web_state(app, wsgi, prefix):
     out = {}
     base = prefix.rstrip("/") + mweb.CAL + "/"
     for st in r.statuses:
+        if (st.status or "").startswith("404"):
+            return None
         if st.href == base:
             continue
         if not st.href.startswith(base):
@@ -290,6 +292,8 @@ def _coll_state(app, path, wsgi, prefix):
     out = {}
     base = prefix.rstrip("/") + path + "/"
     for st in r.statuses:
+        if (st.status or "").startswith("404"):
+            return None  # the multistatus only says that the collection does not exist
         if st.href == base:
             continue
         if not st.href.startswith(base):
@@ -307,6 +311,8 @@ def _children(app, path, wsgi, prefix):
         return None
     base = prefix.rstrip("/") + path + "/"
     import urllib.parse
+    if any((st.status or "").startswith("404") for st in r.statuses):
+        return None
     return sorted(urllib.parse.unquote(st.href)[len(base):] for st in r.statuses if urllib.parse.unquote(st.href) != base)
 
 
